@@ -162,6 +162,10 @@ func replay(b *behaviour, e *env, variant int) (key, detail string, at int, obs 
 			f = &b.Cfg.Faults[i]
 		}
 		e.proxy.OnCancel = cancel
+		e.proxy.Discovery = nil
+		if f != nil && f.At == 0 {
+			e.proxy.Discovery = &chain.Fault{Kind: f.Kind}
+		}
 		e.proxy.Plan = func(seq int, path string) *chain.Fault {
 			if f == nil {
 				return nil
